@@ -182,6 +182,16 @@ def writeFile (hasTif : Bool) (prLen : Nat) (hasRec : Bool) (fileNum : Option In
       | .error e => .error e
       | .ok b => .ok (b, ts)
 
+/-- the same without `close()`: the bytes in the stream after the last `write` (how the project's tests build files) -/
+def writeFileOpen (hasTif : Bool) (prLen : Nat) (hasRec : Bool) (fileNum : Option Int) (hasCheck : Bool)
+    (rs : List Bytes) : Except Err (Bytes × List Nat) :=
+  match Wr.new hasTif prLen (Prt.mk' hasRec fileNum hasCheck) with
+  | .error e => .error e
+  | .ok w =>
+    match writeAll w rs with
+    | .error e => .error e
+    | .ok (ts, w') => .ok (w'.out, ts)
+
 /-! ## reader -/
 
 /-- `stream.read(n)` at `pos` -/
